@@ -91,3 +91,44 @@ func caseGen() *rapid.Generator[Case] {
 }
 
 func TestProp(t *testing.T) { prop.Rapid(t, caseGen()) }
+
+// FuzzC07: two header texts, three cell texts, a shape byte and a skipable byte.
+func FuzzC07(f *testing.F) {
+	f.Add("k", "v", "a", "b", "", uint8(0xff), uint8(0x12))
+	f.Add("\"", "\\", "\x01", "< >", "\x7f", uint8(0x3c), uint8(0x05))
+	f.Add("same", "same", "", "", "x", uint8(0x11), uint8(0x2a))
+	f.Fuzz(func(t *testing.T, k1, k2, a, b, c string, shape, skip uint8) {
+		for _, s := range []string{k1, k2} {
+			if !utf8ok(s) {
+				t.Skip() // header texts are valid UTF-8 (JSON cannot carry other bytes)
+			}
+		}
+		ops := []gen.Op{{K: "hdr", Items: []gen.Item{gen.S(k1), gen.S(k2)}[:1+int(shape&1)]}}
+		if shape&2 != 0 {
+			ops = append(ops, gen.Op{K: "sep"})
+		}
+		ops = append(ops, gen.Op{K: "rowitems", Items: []gen.Item{gen.S(a), gen.S(b)}[:int(shape>>2)%3]})
+		if shape&0x10 != 0 {
+			ops = append(ops, gen.Op{K: "sep"}, gen.Op{K: "sep"})
+		}
+		if shape&0x20 != 0 {
+			ops = append(ops, gen.Op{K: "rowitems", Items: []gen.Item{gen.S(c), {K: "int", N: int64(shape)}}[:1+int(shape>>6)%2]})
+		}
+		if shape&0x80 != 0 {
+			ops = append(ops, gen.Op{K: "sep"})
+		}
+		cs := Case{Script: gen.Script{Ops: ops}, Skip: []int{int(skip & 3), int(skip >> 2 & 3), int(skip >> 4 & 3)}}
+		if v := prop.Eval(cs); v != nil {
+			t.Fatalf("VIOLATION %s", ID)
+		}
+	})
+}
+
+func utf8ok(s string) bool {
+	for _, r := range s {
+		if r == 0xfffd {
+			return false
+		}
+	}
+	return true
+}
